@@ -4,8 +4,9 @@ import cplx_iv_ops as CI
 import c04_api
 
 LEVEL = "proof"
-LEAN_MODULES = ["Props.C04"]
-ASSUMPTIONS = ["theorems cover add/sub/mul/mul_mpf/mul_int/square/neg/pos componentwise; division/reciprocal/negative powers are bit-exactly "
+LEAN_MODULES = ["Props.C04", "Props.C04pow"]
+ASSUMPTIONS = ["theorems cover add/sub/mul/mul_mpf/mul_int/square/neg/pos componentwise and z**n in the exact regime (Props/C04pow.lean: both components nonzero, "
+               "n >= 3, n*(|e_a-e_b|+max bc) < 10000: complex_int_pow = (A+Bi)^n in Z[i], each component rounded once); division/reciprocal/negative powers are bit-exactly "
                "modelled and their accuracy clause is decided per case in exact arithmetic",
                "the public routes (operators with mpc/mpf/int/float/complex operand mixes under the context rounding mode; fadd/fsub/fmul with "
                "prec=/rounding= keywords) are decided componentwise against correct rounding in exact rational arithmetic on a seeded sample (glue not proved)",
